@@ -630,7 +630,7 @@ TRUSTED = ["hook x/go/gorp/export_verif.go (VerifDump: read-only copies of forwa
            "harness drives the real gorp.Table/LookupIndex/SortedIndex over memkv (pebble in-memory); nested commit "
            "is produced through the kv store's own synchronous observer (public API)"]
 ASSUMES = ["filters have at most 12 children per And/Or (Go's SortFunc is stable only up to 12 elements)",
-           "no populate failure, no raw/prefix filters, no offset, no validators",
+           "no raw/prefix filters, no offset, no validators; populate failure is modelled and checked (mid-scan read error) but lies outside the theorems' scope (op_ok excludes ReopenFault)",
            "every write of a gorp transaction goes through the table's writers (staging)"]
 PARTIAL = ("over schedules the property does not hold when the commits of two transactions are crossed (F22, known "
            "finding: U commits between T's kv commit and T's index flush and both wrote one key); the theorems "
@@ -660,6 +660,6 @@ LEVEL_NOTE = ("Trusted: Coq kernel/vm_compute; hand-written model (tied by corre
               "C17_repeated_value_refuted keeps the witness) and F22 (crossed commit/flush of two transactions leaves "
               "the index permanently out of step with the table; known finding, reproduced on every run from "
               "corpus/C17/01_*; C17_crossed_commit_refuted). Not modelled: raw/prefix filters, offset, validators, "
-              "populate failure fallback, lazy membership maps, Go map iteration order (results compared as sorted "
+              "lazy membership maps, Go map iteration order (results compared as sorted "
               "multisets; order inside equal sorted-index values adopted from the implementation), real goroutine "
               "concurrency (the crossed commit is produced deterministically through the kv observer).")
